@@ -20,7 +20,8 @@
 (*                                                                         *)
 (* Shipped: set of flags selecting the transitions as the pinned tree      *)
 (* shipped them -- "nostagger" (lanes not staggered by init, defect D2)    *)
-(* and "dropbatch" (key change drops the whole unused batch, defect D3).   *)
+(* and "dropbatch" (key change drops the whole unused batch, defect D3);   *)
+(* "narrow" is not a shipped defect but a seeded one (length truncated).   *)
 (* With a flag set TLC must find a violation (negative configs).           *)
 (***************************************************************************)
 EXTENDS Contract, TLC
@@ -100,7 +101,9 @@ ImplLoop(B, st, size, acc) ==
          IN  ImplLoop(B, [st EXCEPT !.offset = st.offset + t], size - t,
                       acc \o SubSeq(st.buf, st.offset + 1, st.offset + t))
 
-ImplEncrypt(B, st, n) == ImplLoop(B, st, n, <<>>)
+(* "narrow": the loop counts the bytes left in a variable narrower than the length type (here  *)
+(* one that wraps at MaxReq), the analogue of `unsigned left = size` for requests >= 4 GiB        *)
+ImplEncrypt(B, st, n) == ImplLoop(B, st, IF "narrow" \in Shipped THEN n % MaxReq ELSE n, <<>>)
 
 (* refinement mapping: the stream position an implementation state denotes *)
 ImplPos(B, st) ==
